@@ -195,7 +195,7 @@ theorem step_inv (cfg : Cfg) (s : St) (op : Op) (h : Inv cfg s) : Inv cfg (step 
       exact ⟨e, he, by subst hf; rfl⟩
     · exact ⟨integrity_of_same_lists h.1 _ (setCeLoop_lists ceed cs s.conf.links true), h.2⟩
   | s6f15 c => exact h
-  | trigger c => exact h
+  | trigger cs => exact h
   | setSv v x => exact h
   | setDv v x => exact h
 
@@ -276,24 +276,36 @@ theorem s6f15_wellformed (cfg : Cfg) (ops : List Op) (c : Id) (hc : c.scalar = t
     · rename_i rs hl; exact absurd hl (hn rs)
     · rfl
 
-/-- **Trigger after any history.**  An enabled linked event sends exactly one S6F11 with the well-formed body; any other
-event sends nothing; the sender never dies on a dangling link. -/
-theorem trigger_wellformed (cfg : Cfg) (ops : List Op) (c : Id) :
-    (∀ rs, (run cfg St.init ops).conf.links.lookup c = some (rs, true) →
-        ∃ rpts, trigger cfg (run cfg St.init ops) c = .report c rpts ∧ WellFormed cfg (run cfg St.init ops) rs rpts)
-    ∧ ((∀ rs, (run cfg St.init ops).conf.links.lookup c ≠ some (rs, true)) →
-        trigger cfg (run cfg St.init ops) c = .nothing) := by
+/-- **Trigger after any history, any list of CEIDs** (repeats, unknown, unlinked and disabled ones in any position): the
+sender never dies, and it sends exactly one S6F11 per linked-and-enabled CEID of the list, in list order, each carrying
+exactly the linked reports in link order with the current values; the other CEIDs send nothing and do not stop the loop. -/
+theorem trigger_wellformed (cfg : Cfg) (ops : List Op) (cs : List Id) :
+    ∃ sent, trigger cfg (run cfg St.init ops) cs = (sent, false) ∧
+      Forall2 (fun c m => m.1 = c ∧ ∃ rs, (run cfg St.init ops).conf.links.lookup c = some (rs, true) ∧
+          WellFormed cfg (run cfg St.init ops) rs m.2)
+        (cs.filter (reportable (run cfg St.init ops))) sent := by
   have hinv := integrity cfg ops
   generalize run cfg St.init ops = s at hinv ⊢
-  constructor
-  · intro rs hl
-    obtain ⟨rpts, hb, hw⟩ := build_ok cfg s hinv.2 rs (hinv.1 _ (AList.lookup_some_mem hl))
-    exact ⟨rpts, by simp [trigger, hl, hb], hw⟩
-  · intro hn
-    unfold trigger
-    split
-    · rename_i rs hl; exact absurd hl (hn rs)
-    · rfl
+  induction cs with
+  | nil => exact ⟨[], rfl, Forall2.nil⟩
+  | cons c cs ih =>
+    obtain ⟨sent, hs, hf⟩ := ih
+    cases hl : s.conf.links.lookup c with
+    | none =>
+      have hr : reportable s c = false := by simp [reportable, hl]
+      exact ⟨sent, by simp [trigger, hl, hs], by simpa [List.filter_cons, hr] using hf⟩
+    | some p =>
+      obtain ⟨rs, en⟩ := p
+      cases en with
+      | false =>
+        have hr : reportable s c = false := by simp [reportable, hl]
+        exact ⟨sent, by simp [trigger, hl, hs], by simpa [List.filter_cons, hr] using hf⟩
+      | true =>
+        have hr : reportable s c = true := by simp [reportable, hl]
+        obtain ⟨rpts, hb, hw⟩ := build_ok cfg s hinv.2 rs (hinv.1 _ (AList.lookup_some_mem hl))
+        refine ⟨(c, rpts) :: sent, by simp [trigger, hl, hb, hs], ?_⟩
+        rw [List.filter_cons, hr]
+        exact Forall2.cons ⟨rfl, rs, hl, hw⟩ hf
 
 /-! ## non-vacuity and the recorded witness -/
 
@@ -314,6 +326,12 @@ example : s6f15 cfg0 (run cfg0 St.init
      .setSv (.nums [30]) (.nums [7]), .s2f37 true []]) (.text "ce")
     = .report (.text "ce") [(.text "r", [.nums [0]]), (.nums [1], [.nums [7], .ids [.text "ce"]]), (.text "r", [.nums [0]])] := by
   decide +kernel
+
+/-- one trigger call with a disabled, an unknown and a repeated CEID around two enabled ones: both are sent, in order -/
+example : trigger cfg0 (run cfg0 St.init
+    [.s2f33 [⟨.nums [1], [.nums [30]]⟩], .s2f35 [⟨.text "ce", [.nums [1]]⟩, ⟨.nums [1], [.nums [1], .nums [1]]⟩], .s2f37 true [.text "ce"]])
+    [.nums [1], .text "ce", .nums [9], .text "ce"]
+    = ([(.text "ce", [(.nums [1], [.nums [0]])]), (.text "ce", [(.nums [1], [.nums [0]])])], false) := by decide +kernel
 
 /-- refused requests exist for every code, and they are not aborts -/
 example : (s2f33 cfg0 St.init [⟨.nums [1], [.nums [99]]⟩]).2 = .code 4 := by decide +kernel
